@@ -94,6 +94,13 @@ func checkC13() *checkDef {
 						Init: []string{"Se:a:40", "Se:c:30", "T"}, Threads: [][]string{{"S:a:20"}}, Final: []string{"Q"}, ExpectPresent: []string{"a"}})
 					ps = append(ps, sched{Name: name("revalidate-vs-cleanup"), cp: base, Prop: "C13",
 						Init: []string{"Se:a:40", "T"}, Threads: [][]string{{"U:a"}, {"G:c"}}, Final: []string{"Q"}})
+					// eviction racing a deletion that frees the bytes itself: the loop must stop once the cache
+					// reports the target, whoever freed the bytes (every janitor removal is traced with the size before it)
+					full := cp{Backend: be, Shards: sh, Limit: 1000, Interval: 1000}
+					ps = append(ps, sched{Name: name("evict-cycle-vs-delete"), cp: full, Prop: "C13", Checks: []string{"evict-stops-at-target", "counters"},
+						Init: []string{"S:a:100", "S:b:100", "S:c:100", "S:d:100", "S:f:600", "T"}, Threads: [][]string{{"D:f"}}, Final: []string{"Q"}})
+					ps = append(ps, sched{Name: name("store-evict-vs-delete"), cp: full, Prop: "C13", Checks: []string{"evict-stops-at-target", "counters"},
+						Init: []string{"S:a:100", "S:b:100", "S:c:100", "S:d:100", "S:f:600"}, Threads: [][]string{{"S:e:50"}, {"D:f"}}, Final: []string{"Q"}})
 				}
 			}
 			return []run{
@@ -319,6 +326,9 @@ type psched struct {
 	Slow    bool   `json:"slow"`
 	Prop    string `json:"prop"`
 	AdvanceS int   `json:"advance_s,omitempty"`
+	TickS    int   `json:"tick_s,omitempty"`
+	LimitTo  int64 `json:"limit_to,omitempty"`
+	Overwrite string `json:"overwrite,omitempty"`
 }
 
 func coalescingScenarios(prop string, clients int) []psched {
@@ -419,6 +429,7 @@ func checkC17() *checkDef {
 				{Pkg: "./utils/bytesize", Scenario: "bytesize/enum", Params: map[string]any{"max_len": 5, "max_round_trip": rt}},
 				{Pkg: "./config", Scenario: "config/roundtrip", Params: map[string]any{}},
 				{Pkg: "./config", Scenario: "config/override", Params: map[string]any{"depth": 4}},
+				{Pkg: "./config", Scenario: "config/reader-sched", Params: map[string]any{}, K: 2, E: 0, Horizon: 20000},
 			}
 		},
 	}
@@ -563,6 +574,14 @@ func checkC15() *checkDef {
 					ps = append(ps, sc)
 				}
 			}
+			// scenarios that exist only for the race oracle: every stored entry is overwritten while the
+			// janitor's scan (cleanup / eviction) is part-way through its snapshot of the entry table
+			for _, be := range []string{"memory", "file"} {
+				ps = append(ps, sched{Name: "overwrites-vs-cleanup-scan/" + be, cp: cp{Backend: be, Shards: 32, Limit: 100000, Interval: 1000}, Prop: "C15",
+					Init: []string{"Se:a:40", "Se:c:30", "Se:d:30", "T"}, Threads: [][]string{{"S:a:20", "S:c:20", "S:d:20"}}, Final: []string{"Q"}})
+				ps = append(ps, sched{Name: "overwrites-vs-eviction-scan/" + be, cp: cp{Backend: be, Shards: 32, Limit: 500, Interval: 1000}, Prop: "C15",
+					Init: []string{"S:a:200", "S:c:200", "S:d:200", "T"}, Threads: [][]string{{"S:a:20", "S:c:20", "S:d:20"}}, Final: []string{"Q"}})
+			}
 			return []run{
 				{Pkg: "./cache", Scenario: "cache/sched", Params: ps, K: k, E: 1, Horizon: 5000, Race: true},
 				{Pkg: "./utils/event", Scenario: "event/sched", Params: eventRaceScenarios(), K: k + 1, E: 1, Horizon: 2000, Race: true, Workers: 4},
@@ -618,10 +637,19 @@ func checkC01() *checkDef {
 						Init: []string{"S:a:40", "S:b:30"}, Threads: [][]string{{"G:a"}, {"S:b:20"}, {"G:b"}}, Final: []string{"G:a", "G:b"}})
 				}
 			}
+			// coalesced clients re-opening the stored entry while a non-coalesced Range request replaces it
+			// by a new version of another length: body, validator and length must stay paired
+			var pp []psched
+			for _, be := range []string{"memory", "file"} {
+				pp = append(pp, psched{Name: "coalesced-vs-range-overwrite/cold/" + be, Backend: be, Clients: 2, Start: "cold", Outcome: "cacheable", Overwrite: "range-get", Prop: "C01"})
+				pp = append(pp, psched{Name: "coalesced-vs-range-overwrite/stale-200/" + be, Backend: be, Clients: 2, Start: "stale-200", Outcome: "cacheable", Overwrite: "range-get", Prop: "C01"})
+			}
 			return []run{
 				{Pkg: "./cache", Scenario: "cache/sched", Params: ps, K: k, E: 1, Horizon: 5000},
+				{Pkg: "./proxy", Scenario: "proxy/sched", Params: pp, K: k, E: 1, F: 1, Horizon: 8000},
 				{Pkg: "./proxy", Scenario: "proxy/range", Params: map[string]any{"backend": "memory"}},
 				{Pkg: "./proxy", Scenario: "proxy/range", Params: map[string]any{"backend": "file"}},
+				{Pkg: "./proxy", Scenario: "proxy/fault", Params: map[string]any{}},
 			}
 		},
 	}
@@ -723,7 +751,18 @@ func checkC14() *checkDef {
 						Final:   []string{"Q"}})
 				}
 			}
-			return []run{{Pkg: "./cache", Scenario: "cache/sched", Params: ps, K: k, E: 1, Horizon: 5000}}
+			// proxied requests racing a janitor cycle and a run-time limit change (which makes the next store evict)
+			var pp []psched
+			for _, be := range []string{"memory", "file"} {
+				n := func(s string) string { return s + "/" + be }
+				pp = append(pp, psched{Name: n("requests-vs-tick-vs-limit-change/cold"), Backend: be, Clients: 2, Start: "cold", Outcome: "cacheable", TickS: 50, LimitTo: 30, Prop: "C14"})
+				pp = append(pp, psched{Name: n("requests-vs-tick-vs-limit-change/stale"), Backend: be, Clients: 2, Start: "stale-304", Outcome: "cacheable", TickS: 50, LimitTo: 30, Prop: "C14"})
+				pp = append(pp, psched{Name: n("request-vs-tick-vs-delete/fresh"), Backend: be, Clients: 1, Start: "fresh", Outcome: "cacheable", TickS: 50, Evictor: "delete", Prop: "C14"})
+			}
+			return []run{
+				{Pkg: "./cache", Scenario: "cache/sched", Params: ps, K: k, E: 1, Horizon: 5000},
+				{Pkg: "./proxy", Scenario: "proxy/sched", Params: pp, K: k, E: 1, F: 1, Horizon: 8000},
+			}
 		},
 	}
 }
